@@ -15,7 +15,9 @@ def run(tier):
     c = Counter()
     n = 16 if tier == "quick" else 400
     blocks = gen.blocks(sd * 29 + 12, n, profiles=("mixed", "mem", "arith")) + rng.sample(gen.mem_pair_corpus(), 6 if tier == "quick" else 40) + rng.sample(gen.rule_corpus(), 6 if tier == "quick" else 40)
-    pool_h = gen.blocks(sd * 31 + 13, 200, profiles=("mixed", "mem", "arith", "stack")) + gen.mem_pair_corpus()[:60]
+    cse = gen.cse_corpus()
+    blocks += rng.sample(cse, 10 if tier == "quick" else len(cse))
+    pool_h = gen.blocks(sd * 31 + 13, 200, profiles=("mixed", "mem", "arith", "stack")) + gen.mem_pair_corpus()[:60] + cse * 3
     samples = []
     for opts in ((["-greedy"], ["-greedy", "-storage", "-size"]) if tier == "quick" else (["-greedy"], ["-greedy", "-storage"], ["-greedy", "-size", "-partition"])):
         tasks = []
